@@ -68,6 +68,8 @@ def classify(case, real, model):
     sc = G.parse_line(case)
     why = G.agree(real, model)
     mp = G.model_panic(model)
+    if real == "ABORT:skipped":
+        return "not run: too many scenarios aborted before it", [], mp
     rt = G.norm_real(real)
     viol = []
     raw = any(a.startswith("R") for a in sc.actions)
@@ -131,7 +133,7 @@ def run(ctx):
     if not ok:
         ctx.tie_broken("tie", "model extraction/driver build failed:\n" + log[-3000:]); return
     corpus = G.read_corpus(PROP)
-    total = 0; mism = []; dist = {}; distinct = set(); samples = []; viols = {}
+    total = 0; mism = []; dist = {}; distinct = set(); samples = []; viols = {}; reruns = 0
     outcomes = {}
     for feat in FEATS:
         ok, exe, log = G.build_real_cached(feat)
@@ -153,13 +155,17 @@ def run(ctx):
         for c, r, m in zip(cases, real, model):
             total += 1
             why, viol, mp = classify(c, r, m)
-            if why:
-                # confirm alone in a fresh process before reporting
+            if why and reruns < 40:
+                # confirm alone in a fresh process before reporting (a bounded number of times: a broken
+                # runtime disagrees everywhere)
+                reruns += 1
                 r2 = rtmock.run(exe, [c], timeout=60)[0]
                 why2, viol2, _ = classify(c, r2, m)
                 if why2:
                     mism.append((c, r2, m, why2))
                 viol = viol2
+            elif why:
+                mism.append((c, r, m, why))
             outcomes[mp] = outcomes.get(mp, 0) + 1
             G.tally(dist, c, r)
             if G.nontrivial(r):
